@@ -312,11 +312,9 @@ impl Kernel {
             let mut entries: Vec<Vec<u8>> = vec![b".".to_vec(), b"..".to_vec()];
             let is_task = self.dirs[&key].is_task;
             if is_task {
-                if !self.dead {
-                    for t in &self.threads {
-                        if t.life != Life::Gone {
-                            entries.push(dec(t.tid as i64));
-                        }
+                for t in &self.threads {
+                    if t.life != Life::Gone {
+                        entries.push(dec(t.tid as i64));
                     }
                 }
             } else if path.ends_with(b"/fd") {
@@ -584,6 +582,11 @@ impl Kernel {
 
     /// Ok((tid, raw status))
     pub fn sys_waitpid(&mut self, tid: i32) -> Result<(i32, i32), i32> {
+        self.sys_waitpid_opts(tid, 0)
+    }
+
+    /// options: bit 0 = WNOHANG
+    pub fn sys_waitpid_opts(&mut self, tid: i32, options: i32) -> Result<(i32, i32), i32> {
         let eff = self.enter(CallKind::Waitpid, &dec(tid as i64));
         let r = (|| {
             match eff {
@@ -607,6 +610,7 @@ impl Kernel {
                         t.exit_report = None;
                         self.attached_now = self.attached_now.saturating_sub(1);
                         self.gt.probe("wait_saw_exit");
+                        self.reap_killed_leftovers();
                         let status = if code == SIGKILL { SIGKILL } else { 0 };
                         return Ok((tid, status));
                     }
@@ -622,10 +626,28 @@ impl Kernel {
                     let _ = sid;
                     return Ok((tid, (sig << 8) | 0x7f));
                 }
-                // block: let the world advance
+                if options & 1 != 0 {
+                    // WNOHANG: nothing to report yet
+                    self.step_all(1);
+                    return Ok((0, 0));
+                }
+                // block: let the world advance (straight to the moment the awaited thread wakes
+                // from an uninterruptible wait, if it is in one)
                 self.clock_ns += 10_000;
-                let progressed = self.step_all(1);
+                if let Some(t) = self.threads.iter().find(|t| t.tid == tid && t.life == Life::Alive) {
+                    if t.blocked_until_ns > self.clock_ns {
+                        self.clock_ns = t.blocked_until_ns;
+                    }
+                }
+                let mut progressed = self.step_all(1);
                 rounds += 1;
+                if !progressed {
+                    // nothing can happen before the next timed wake-up: jump there
+                    if let Some(t) = self.next_wake_time() {
+                        self.clock_ns = t;
+                        progressed = true;
+                    }
+                }
                 let pending_join = self.threads.iter().any(|t| t.join_stop_at.is_some());
                 if (!progressed && !pending_join) || rounds > 200_000 {
                     self.wait_deadlock = true;
@@ -651,11 +673,15 @@ impl Kernel {
             if let Some(Effect::Errno(e)) = eff {
                 return Err(e);
             }
-            if pid != self.world.pid || self.dead {
+            if pid != self.world.pid {
                 return Err(ESRCH);
             }
             if !self.threads.iter().any(|t| t.life != Life::Gone) {
                 return Err(ESRCH);
+            }
+            if self.dead {
+                // a signal to a process that only consists of zombies is accepted and has no effect
+                return Ok(());
             }
             match sig {
                 0 => {}
@@ -686,7 +712,8 @@ impl Kernel {
     }
 
     pub fn sys_vmreadv(&mut self, pid: i32, addr: u64, want: usize) -> Result<Vec<u8>, i32> {
-        let eff = self.enter(CallKind::Vmreadv, &dec(pid as i64));
+        // description: "<pid> @<hex address>+" so that a trigger can select reads of one address
+        let eff = self.enter(CallKind::Vmreadv, format!("{} @{:x}+", pid, addr).as_bytes());
         let r = (|| {
             let mut limit = want;
             match eff {
